@@ -61,6 +61,9 @@ Proof.
   apply Radix; try reflexivity; try constructor; try reflexivity. discriminate.
 Qed.
 
+Example ex_token_extent : scan_number 48 ([120; 49; 101] ++ [43; 49]) = Some ([48; 120; 49; 101], [43; 49]).
+Proof. reflexivity. Qed.
+
 (* ---- integers as text ---- *)
 Example ex_integral : int_of_fval (Fin (-3) 4) = Some (-48) /\ lnumber_string (fun _ => []) (Fin (-3) 4) = [45; 52; 56].
 Proof. split; reflexivity. Qed.
